@@ -268,13 +268,14 @@ def stats_list(solver):
 def impl_solve(prob, cfg, limit=None):
     """the real solve() generator; returns ('ok', sols, stats) or ('err', kind, None)"""
     try:
-        s = cfg.solver(prob.build())
-        sols = []
-        for sol in s.solve():
-            sols.append([int(x) for x in sol])
-            if limit is not None and len(sols) >= limit:
-                break
-        return "ok", sols, stats_list(s)
+        with guard(int(os.environ.get("NUCS_VERIF_CALL_TIMEOUT", "30"))):
+            s = cfg.solver(prob.build())
+            sols = []
+            for sol in s.solve():
+                sols.append([int(x) for x in sol])
+                if limit is not None and len(sols) >= limit:
+                    break
+            return "ok", sols, stats_list(s)
     except IndexError as e:
         return "err", "stack-overflow" if "stack overflow" in str(e) else "oob", None
     except OverflowError:
@@ -285,9 +286,10 @@ def impl_solve(prob, cfg, limit=None):
 
 def impl_optimize(prob, cfg, v, minimize):
     try:
-        s = cfg.solver(prob.build())
-        best = s.minimize(v) if minimize else s.maximize(v)
-        return "ok", None if best is None else [int(x) for x in best], stats_list(s)
+        with guard(int(os.environ.get("NUCS_VERIF_CALL_TIMEOUT", "30"))):
+            s = cfg.solver(prob.build())
+            best = s.minimize(v) if minimize else s.maximize(v)
+            return "ok", None if best is None else [int(x) for x in best], stats_list(s)
     except IndexError as e:
         return "err", "stack-overflow" if "stack overflow" in str(e) else "oob", None
     except OverflowError:
